@@ -30,6 +30,9 @@ type Step struct {
 }
 
 type Script struct {
+	// Modern: the client negotiates 2026-07-28 and, having a list-changed handler, keeps a
+	// subscriptions/listen request parked on the server for the whole session.
+	Modern      bool   `json:"modern,omitempty"`
 	KeepAliveMs int    `json:"keepalive_ms"` // server keep-alive (0: off)
 	Steps       []Step `json:"steps"`
 }
@@ -37,6 +40,7 @@ type Script struct {
 func genScript(rt *rapid.T, race bool) Script {
 	var s Script
 	s.KeepAliveMs = rapid.SampledFrom([]int{0, 0, 50, 1000}).Draw(rt, "ka")
+	s.Modern = rapid.IntRange(0, 3).Draw(rt, "modern") == 0
 	n := rapid.IntRange(1, 30).Draw(rt, "n")
 	for i := 0; i < n; i++ {
 		st := Step{Kind: rapid.SampledFrom([]string{"ccall", "ccall", "scall", "nested", "notify", "snotify", "release", "release", "close", "close", "wait", "fail", "vanish", "late", "late", "latenotify", "sleep"}).Draw(rt, "kind")}
@@ -150,7 +154,12 @@ func runInBubble(s Script) (res vt.Result) {
 		w.handle(ctx, "server", a.K)
 		return &mcp.CallToolResult{Content: []mcp.Content{&mcp.TextContent{Text: "ok"}}}, nil, nil
 	})
+	var listChanged func(context.Context, *mcp.ToolListChangedRequest)
+	if s.Modern {
+		listChanged = func(context.Context, *mcp.ToolListChangedRequest) {}
+	}
 	client := mcp.NewClient(&mcp.Implementation{Name: "cli", Version: "1"}, &mcp.ClientOptions{
+		ToolListChangedHandler:      listChanged,
 		ProgressNotificationHandler: func(ctx context.Context, r *mcp.ProgressNotificationClientRequest) {},
 		CreateMessageHandler: func(ctx context.Context, req *mcp.CreateMessageRequest) (*mcp.CreateMessageResult, error) {
 			k := 0
@@ -192,7 +201,11 @@ func runInBubble(s Script) (res vt.Result) {
 	cerr := make(chan error, 1)
 	go func() {
 		var e error
-		cs, e = client.Connect(bg, &mcp.IOTransport{Reader: b, Writer: b}, &mcp.ClientSessionOptions{ProtocolVersion: "2025-06-18"})
+		opts := &mcp.ClientSessionOptions{ProtocolVersion: "2025-06-18"}
+		if s.Modern {
+			opts = nil
+		}
+		cs, e = client.Connect(bg, &mcp.IOTransport{Reader: b, Writer: b}, opts)
 		cerr <- e
 	}()
 	synctest.Wait()
@@ -402,6 +415,19 @@ func runInBubble(s Script) (res vt.Result) {
 		}
 	}
 	synctest.Wait()
+	time.Sleep(10 * time.Second)
+	synctest.Wait()
+	// Every handler has returned by now: a Close the script issued must return on its own, whatever
+	// the other side does (it must not need the peer to close first).
+	for _, bl := range blockers {
+		if strings.HasSuffix(bl.what, " Close") {
+			select {
+			case <-bl.done:
+			default:
+				res.Failf("%s has not returned although every handler has returned (it is waiting for the peer to go away)", bl.what)
+			}
+		}
+	}
 	start("final client Close", cs.Close)
 	synctest.Wait()
 	start("final server Close", ss.Close)
@@ -433,7 +459,10 @@ func runInBubble(s Script) (res vt.Result) {
 		}
 	}
 	w.mu.Unlock()
-	res.Desc = fmt.Sprintf("%d|%s", s.KeepAliveMs, desc.String())
+	res.Desc = fmt.Sprintf("%v|%d|%s", s.Modern, s.KeepAliveMs, desc.String())
+	if s.Modern {
+		res.Class("modern_with_parked_listen")
+	}
 	res.NonTrivial = nt
 	d := desc.String()
 	for _, c := range []struct{ sub, class string }{{"Kc", "client_close"}, {"Ks", "server_close"}, {"F", "write_failure"}, {"V", "peer_vanishes"}, {"L", "late_request"}, {"n", "nested_call"}} {
